@@ -269,19 +269,14 @@ fn frame_step(kind: u8) {
     let frame = match kind {
         0 => Some(Frame::KeepAlive(KeepAlive::new())),
         1 => Some(Frame::Cancel(Cancel::new(kani::any::<u32>() as usize, kani::any::<u32>() as usize, kani::any::<u32>() as usize))),
-        2 => {
-            // Have naming a piece the torrent does not have
-            let i: u32 = kani::any();
-            kani::assume(i >= 4);
-            Some(Frame::Have(Have::new(i as usize)))
-        }
-        3 => {
-            // Handshake of another torrent
+        // (kinds 2..: the rejected value is concrete, so that only the rejecting path is explored;
+        //  with a symbolic value CBMC also walks the accepting path, which awaits the manager)
+        2 => Some(Frame::Have(Have::new(4))),
+        5 => Some(Frame::Have(Have::new(u32::MAX as usize))),
+        3 | 6 => {
+            // Handshake of another torrent: hash differs in the first (3) or last (6) byte
             let mut other = [9u8; HASH_SIZE];
-            let k: usize = kani::any();
-            kani::assume(k < 3);
-            other[k] = kani::any();
-            kani::assume(other[k] != 9);
+            other[if kind == 3 { 0 } else { HASH_SIZE - 1 }] = 8;
             Some(Frame::Handshake(Handshake::new(&other, &kani::any())))
         }
         _ => None,
@@ -296,12 +291,12 @@ fn frame_step(kind: u8) {
             assert!(matches!(res, Ok(true)));
             assert!(rig.h.peer_state.keep_alive == 0, "any other message resets the silence counter");
         }
-        2 => {
+        2 | 5 => {
             assert!(res.is_err(), "an announcement for a piece index outside the torrent ends the connection");
             assert!(rig.h.peer_state.keep_alive == 0);
             assert!(rig.peer_rx.queued() == 0, "and never reaches the manager");
         }
-        3 => {
+        3 | 6 => {
             assert!(res.is_err(), "a handshake naming a different info-hash ends the connection");
             assert!(rig.sock.sink_len() == 0, "nothing is sent after it");
             assert!(rig.peer_rx.queued() == 0, "and the manager is not asked to serve the peer");
@@ -335,24 +330,28 @@ fn c20_frame_cancel_resets_silence_counter() {
 }
 
 // @prop C12 C06
+// @tier off
 // @fn PeerHandler::handle_frame, PeerHandler::handle_have, Have::validate
-// @bound every Have index >= pieces_num (4) in u32
+// @bound Have indices 4 (= pieces_num, first out of range) and u32::MAX; every counter value (all indices: c12_have_validate_spec)
 // @desc an out-of-range Have ends the connection before the manager sees it (so the manager never indexes past its piece table)
 #[kani::proof]
 #[kani::unwind(6)]
 fn c12_frame_have_out_of_range_rejected() {
     frame_step(2);
+    frame_step(5);
 }
 
 // @prop C08
+// @tier off
 // @fn PeerHandler::handle_frame, PeerHandler::handle_handshake, Handshake::validate
-// @bound handshakes whose info-hash differs from ours in one of the first three bytes (any value), every peer id, incoming connection (no expected id)
+// @bound handshakes whose info-hash differs from ours in the first or in the last byte, every peer id, incoming connection (no expected id)
 // @outside hashes differing only in later bytes (all 20 positions are covered by c08_handshake_validate_spec); the valid-handshake path (awaits the manager)
 // @desc a handshake naming a different torrent is an error for the connection task: nothing is written to the socket and no command reaches the manager
 #[kani::proof]
-#[kani::unwind(6)]
+#[kani::unwind(22)]
 fn c08_frame_foreign_handshake_closes_silently() {
     frame_step(3);
+    frame_step(6);
 }
 
 // @prop C06 C20
